@@ -191,6 +191,50 @@ def generate(ctx):
             off = [round(rng.choice([-1, 1]) * (0.125 + 0.25 * k + rng.randint(0, 3) * 0.0625), 5) for k in range(6)]
             case["box"] = d + off
         yield case
+    # work package WPI: the rest of the view's API in the access sequences — an index of another type, str(view),
+    # and the SHARED GroFile handle moved from outside between accesses (seek_atom incl. beyond natoms, next(),
+    # readline(parsed=False)): "regardless of what was read before" for EVERY state of the cursor.
+    # Generated after the cases above, which stay what they were.
+    for i in range(ctx.n(70, 700)):
+        cls = rng.choice(CLASSES)
+        nres = 1 if cls == "single" else rng.randint(2, 40)
+        residues = _gen_residues(rng, cls, nres)
+        natoms = sum(len(r[2]) for r in residues)
+        ops = _fix_iter_ops(_gen_xops(rng, len(residues), natoms, rng.randint(4, 60)))
+        yield {"kind": "sysgro", "cls": cls, "title": rng.choice(["generated system", "x"]), "vel": rng.random() < 0.5,
+               "coordseed": rng.randrange(1 << 30), "residues": residues, "ops": ops, "x": 1}
+
+
+def _gen_xops(rng, nres, natoms, nops):
+    ops, iters = [], 0
+    for _ in range(nops):
+        k = rng.random()
+        if k < 0.06 and nres >= 2:
+            # residue i, one raw line consumed from the handle (file position moves, `_current_atom` does not), then
+            # residue i+1 — whose first atom is where `_current_atom` points
+            i = rng.randrange(nres - 1)
+            ops += [["g", i], ["pr"], ["g", i + 1]]
+        elif k < 0.22:
+            ops.append(["g", G.rand_index(rng, nres)])
+        elif k < 0.34:
+            ops.append(["s"] + list(G.rand_slice(rng, nres, 12)))
+        elif k < 0.40 or (iters == 0 and k < 0.5):
+            ops.append(["in"])
+            iters += 1
+        elif k < 0.5:
+            ops.append(["ix", rng.randrange(iters)])
+        elif k < 0.60:
+            ops.append(["o", rng.choice(G.OTHER_KINDS)])
+        elif k < 0.66:
+            ops.append(["str"])
+        elif k < 0.82:
+            q = rng.random()
+            ops.append(["ps", rng.randint(0, natoms) if q < 0.6 else natoms if q < 0.75 else natoms + rng.randint(1, 5)])
+        elif k < 0.92:
+            ops.append(["pn"])
+        else:
+            ops.append(["pr"])
+    return ops
 
 
 _counter = [0]
@@ -366,6 +410,23 @@ def evaluate(ctx, case):
             elif op[0] == "in":
                 iters.append(iter(s))
                 r = []
+            elif op[0] == "o":
+                s[G.other_index(op[1])]
+                r = []
+            elif op[0] == "str":
+                results.append(("T", str(s), cursor()))
+                continue
+            elif op[0] == "ps":
+                s._open_fgro.seek_atom(int(op[1]))
+                results.append(("U", None, cursor()))
+                continue
+            elif op[0] == "pn":
+                results.append(("A", G.atom_tuple_of_line(next(s._open_fgro)), cursor()))
+                continue
+            elif op[0] == "pr":
+                s._open_fgro.readline(parsed=False)
+                results.append(("U", None, cursor()))
+                continue
             else:
                 r = [G.residue_tuples(next(iters[int(op[1])]))]
             results.append(("R", r, cursor()))
@@ -376,9 +437,22 @@ def evaluate(ctx, case):
         pos_it = []
         for opno, (op, res) in enumerate(zip(ops, results)):
             ctx.oracle_ok()
+            if op[0] in ("ps", "pn", "pr"):
+                ctx.count("poke:" + op[0] + (":err" if res[0] == "E" else ""))
+                continue                    # not an access of the view: whatever it does, the accesses must not care
             try:
                 if op[0] == "g":
                     want = ("R", [expected[int(op[1])]])
+                elif op[0] == "o":
+                    want = ("E", "TypeError")       # as a Python list answers an index of that type
+                    ctx.count("other-index:" + str(op[1]))
+                    if str(op[1]).startswith("np") and res[0] == "R":
+                        # a numpy integer IS an index for a Python list (`__index__`); the view refuses it today.
+                        # Should it ever accept one, it must hand out that residue
+                        want = ("R", [])
+                        ctx.count("other-index:numpy-integer-accepted")
+                elif op[0] == "str":
+                    want = ("T", G.expected_str(comp))
                 elif op[0] == "s":
                     want = ("R", expected[slice(op[1], op[2], op[3])])
                 elif op[0] == "in":
@@ -399,7 +473,7 @@ def evaluate(ctx, case):
             ctx.count("op:" + op[0] + (":err" if want[0] == "E" else ""))
             if res[:2] != want:
                 what = {"g": "__getitem__(int)", "s": "__getitem__(slice)", "in": "__iter__",
-                        "ix": "__iter__:next"}[op[0]]
+                        "ix": "__iter__:next", "o": "__getitem__(other type)", "str": "__str__"}[op[0]]
                 ctx.oracle_fail(f"SystemGro.{what}:differs-from-kth-run", case,
                                 {"op": op, "op_number": opno, "got": _short(res[:2]), "want": _short(want)})
                 break
@@ -417,12 +491,13 @@ def evaluate(ctx, case):
     recs = [(a[0], a[1], a[2]) for a in atoms]
     # every third case of moderate size goes through the BYTE path: the model opens the very bytes of the file
     # (`sysGroOfBytes` = C13's reader composed with the view) instead of being handed the parsed records
-    by_bytes = len(atoms) <= 700 and _counter[0] % 3 == 0
+    xcase = any(o[0] in ("o", "str", "ps", "pn", "pr") for o in ops)
+    by_bytes = len(atoms) <= 700 and _counter[0] % 3 == 0 and not xcase
     ctx.count("model-input:" + ("file-bytes" if by_bytes else "parsed-records"))
     if by_bytes:
         toks = f"{file_bytes.hex()} {G.tok_ops(ops)}"
     else:
-        toks = f"0 {G.tok_records(recs)} {G.tok_ops(ops)}"
+        toks = (f"{G.tok_records(recs)} {G.tok_ops(ops)}" if xcase else f"0 {G.tok_records(recs)} {G.tok_ops(ops)}")
 
     def cb(status, toks, case, impl=impl, results=results, internals=internals, atoms=atoms, by_bytes=by_bytes,
            hdr=(title_impl, natoms_impl, [float(x) for x in box_impl.flatten()])):
@@ -485,6 +560,12 @@ def evaluate(ctx, case):
             t = T.tok()
             if t == "E":
                 m = ("E", T.tok())
+            elif t == "T":
+                m = ("T", T.str())
+            elif t == "A":
+                m = ("A", atoms[T.int()])
+            elif t == "U":
+                m = ("U", None)
             else:
                 m = ("R", [[atoms[d] for d in r] for r in T.list(T.residue)])
             mc = (T.int(), T.int())
@@ -500,7 +581,7 @@ def evaluate(ctx, case):
 
     case_for_replay = dict(case)
     case_for_replay["ops"] = ops
-    ctx.model.ask("sysgrob" if by_bytes else "sysgro", toks, cb, case_for_replay)
+    ctx.model.ask("sysgrob" if by_bytes else ("sysgrox" if xcase else "sysgro"), toks, cb, case_for_replay)
     if _counter[0] % 20 == 0:
         ctx.model.flush(ctx)      # the callbacks hold every op result of the case: keep memory bounded
 
@@ -521,7 +602,7 @@ def evaluate(ctx, case):
 
 def _short(x):
     tag, v = x
-    if tag == "E":
+    if tag in ("E", "T", "A", "U"):
         return [tag, v]
     return [tag, [[(a[0], a[1], a[2], a[3]) for a in r[:3]] + ([f"… {len(r)} atoms"] if len(r) > 3 else [])
                   for r in v[:4]] + ([f"… {len(v)} residues"] if len(v) > 4 else [])]
